@@ -506,4 +506,9 @@ def run_sim(fn, seed=None, preempt=False, script=None, spin_limit=5000000, time_
             signal.signal(signal.SIGALRM, old)
     if fired["v"] and not isinstance(r, RealTimeLimit):
         r = RealTimeLimit(f"real-time budget of {real_limit} s exceeded")
+    if isinstance(r, Killed):
+        # the main task was woken up because the simulation had already been declared dead by another task
+        # (a deadlock noticed at a task's exit): report that verdict, never the internal `Killed`
+        dl = [e for _, e, _ in s.errors if isinstance(e, Deadlock)]
+        r = dl[0] if dl else Deadlock("simulation killed while the main task was blocked: " + repr(s.tasks))
     return r, s
